@@ -7,7 +7,7 @@
 (* (officer +1 inside a sexagenary month, mansion +1, six-day star +1 or   *)
 (* restart).  Claimed for civil dates 0001..9998 and years -1..9999.       *)
 (***************************************************************************)
-EXTENDS Almanac, TraceIO, TLC
+EXTENDS Almanac, Civil, TraceIO, TLC
 
 VARIABLES l, nv, nt
 
@@ -22,10 +22,13 @@ DayClauses(i) ==
       p == Rec[i - 1]
       solok == \A k \in 1..4 : e.sol[k] > 0
   IN
-  [ views    |-> e.p >= 0 /\ e.mp >= 0 /\ e.ly > -9,
+  [ civil     |-> Valid(e.y, e.m, e.d) /\ e.j = JDN(e.y, e.m, e.d),
+    views    |-> e.p >= 0 /\ e.mp >= 0 /\ e.ly > -9,
     pillar   |-> e.p >= 0 => e.p = Pillar(e.j),
     officer  |-> (e.p >= 0 /\ e.mp >= 0) => Both(e.duty, Officer(db, mb)),
     path     |-> (e.p >= 0 /\ e.mp >= 0) => Both(e.tw, PathSpirit(db, mb)),
+    (* the same two through the previous day's already-queried lunar day stepped by one (-2: first day of a segment) *)
+    stepped  |-> (e.p >= 0 /\ e.mp >= 0 /\ e.st[1] # -2) => (e.st[1] = Officer(db, mb) /\ e.st[2] = PathSpirit(db, mb)),
     mansion  |-> e.ms[1] = e.ms[2] /\ e.ms[2] \in 0..27 /\ MansionWeekday(e.ms[2]) = e.w /\ e.w = (e.j + 1) % 7,
     sixstar  |-> e.ly > -9 => e.six = SixStar(e.lm, e.ld),
     phase    |-> e.ly > -9 => (e.ph = Phase(e.ld) /\ e.mr = MinorRenDay(e.lm, e.ld)),
